@@ -106,37 +106,59 @@ def didUA (h : Hdr) : Bool :=
 
 def pseudoOrderList (h : Hdr) : List Bytes := (hdrGet? h pseudoHeaderOrderKey).getD []
 
+/-- host after `PunycodeHostPort` / `ValidHostHeader`. -/
+def fieldHost (r : FReq) : Except FErr Bytes :=
+  let host0 := if r.host.isEmpty then r.url.host else r.host
+  if !isASCII host0 then .error .nonAsciiHost
+  else if !validHostHeader host0 then .error .invalidHost
+  else .ok host0
+
+/-- the `:path` value (`[]` for CONNECT, where none is sent). -/
+def fieldPath (r : FReq) (host : Bytes) : Except FErr Bytes :=
+  if r.method == sCONNECT then .ok []
+  else
+    let p := requestURI r.url
+    if validPseudoPath p then .ok p
+    else
+      let p' := trimPrefix p (r.url.scheme ++ [58, 47, 47] ++ host)
+      if validPseudoPath p' then .ok p' else .error .invalidPath
+
+/-- the pseudo header groups in default order. -/
+def basePseudo (fl : Flavor) (r : FReq) (host path : Bytes) : List KV :=
+  let m := if fl == .h2 then methodOrGet r.method else r.method
+  [⟨sAuthority, [host]⟩, ⟨sMethod, [m]⟩] ++
+    (if r.method == sCONNECT then [] else [⟨sPath, [path]⟩, ⟨sScheme, [r.url.scheme]⟩])
+
+/-- … after the optional pseudo-header order. -/
+def pseudoKVs (fl : Flavor) (r : FReq) (host path : Bytes) : List KV :=
+  let porder := pseudoOrderList r.header
+  if porder.isEmpty then basePseudo fl r host path
+  else sortKeyValues (basePseudo fl r host path) porder
+
+/-- the regular groups in collection order: header map (iteration order), then content-length,
+accept-encoding, default user-agent. -/
+def baseRegular (fl : Flavor) (r : FReq) : List KV :=
+  let cl := actualContentLength fl r
+  headerGroups fl r.header
+  ++ (if shouldSendReqContentLength r.method cl then [⟨sContentLengthL, [natToDec cl.toNat]⟩] else [])
+  ++ (if r.addGzip then [⟨sAcceptEncodingL, [sGzip]⟩] else [])
+  ++ (if didUA r.header then [] else [⟨sUserAgentL, [defaultUserAgent]⟩])
+
+/-- … after the optional header order. -/
+def regularKVs (fl : Flavor) (r : FReq) : List KV :=
+  let order := orderList r.header
+  if order.isEmpty then baseRegular fl r else sortKeyValues (baseRegular fl r) order
+
+/-- one wire field per value, name lower-cased. -/
+def wireOf (kvs : List KV) : List (Bytes × Bytes) :=
+  kvs.flatMap fun kv => kv.values.map fun v => (lower kv.key, v)
+
 /-- The ordered `(name, value)` list written to the header block. -/
 def fields (fl : Flavor) (r : FReq) : Except FErr (List (Bytes × Bytes)) := do
-  let host0 := if r.host.isEmpty then r.url.host else r.host
-  if !isASCII host0 then throw .nonAsciiHost
-  if !validHostHeader host0 then throw .invalidHost
-  let host := host0
-  let isConnect := r.method == sCONNECT
-  let path ←
-    if isConnect then pure []
-    else
-      let p := requestURI r.url
-      if validPseudoPath p then pure p
-      else
-        let p' := trimPrefix p (r.url.scheme ++ [58, 47, 47] ++ host)
-        if validPseudoPath p' then pure p' else throw .invalidPath
+  let host ← fieldHost r
+  let path ← fieldPath r host
   if !headersValid (r.header.map fun kv => (kv.key, kv.values)) then throw .invalidHeader
-  let m := if fl == .h2 then methodOrGet r.method else r.method
-  let pseudo : List KV :=
-    [⟨sAuthority, [host]⟩, ⟨sMethod, [m]⟩] ++
-    (if isConnect then [] else [⟨sPath, [path]⟩, ⟨sScheme, [r.url.scheme]⟩])
-  let porder := pseudoOrderList r.header
-  let pseudo := if porder.isEmpty then pseudo else sortKeyValues pseudo porder
-  let cl := actualContentLength fl r
-  let regular : List KV :=
-    headerGroups fl r.header
-    ++ (if shouldSendReqContentLength r.method cl then [⟨sContentLengthL, [natToDec cl.toNat]⟩] else [])
-    ++ (if r.addGzip then [⟨sAcceptEncodingL, [sGzip]⟩] else [])
-    ++ (if didUA r.header then [] else [⟨sUserAgentL, [defaultUserAgent]⟩])
-  let order := orderList r.header
-  let regular := if order.isEmpty then regular else sortKeyValues regular order
-  return (pseudo ++ regular).flatMap fun kv => kv.values.map fun v => (lower kv.key, v)
+  return wireOf (pseudoKVs fl r host path ++ regularKVs fl r)
 
 def fieldsH2 (r : FReq) := fields .h2 r
 def fieldsH3 (r : FReq) := fields .h3 r
